@@ -27,7 +27,18 @@ def generate(rng, tier):
                           p_helper=0.15, p_tabs=rng.choice([0.0, 0.3]), p_ps2=rng.choice([0.2, 0.5, 0.8]))
     cfg['n_modules'] = (1, 3)
     cfg['n_funcs'] = (1, 3)
-    cfg['forms'] = list(gen.SIMPLE_FORMS) + ['strdirective', 'tryexc']
+    cfg['forms'] = list(gen.SIMPLE_FORMS) + ['strdirective', 'tryexc', 'emitop']
+    if rng.random() < 0.5:
+        # names that also exist at module level of the module under test: rebound,
+        # shadowed, deleted and read back across part boundaries
+        cfg['forms'] += gen.NAMESPACE_FORMS * 2
+    if rng.random() < 0.5:
+        cfg['forms'] += gen.DECORATED_FORMS
+    if rng.random() < 0.5:
+        # directives that change nothing the statements depend on still cut the
+        # doctest into parts
+        cfg['p_dir'] = rng.choice([0.08, 0.2])
+        cfg['p_inline_dir'] = rng.choice([0.0, 0.15])
     flavour = rng.choice(['sync', 'sync', 'async', 'async', 'mixed'])
     if flavour != 'sync':
         cfg['async_forms'] = list(gen.ASYNC_FORMS)
@@ -55,15 +66,22 @@ def generate(rng, tier):
                     st['sep'] = 'blank'
     plan = []
     execs = common.predicted_execs(world, ops)
-    if rng.random() < 0.3 and execs:
+    if rng.random() < 0.4 and execs:
         for _ in range(rng.randint(1, 2)):
             dtid, k, opidx = rng.choice(execs)
             pts = common.points_of(world, dtid)
             if not pts:
                 continue
             p = rng.choice(pts)
-            if p['form'] in W.ASYNC_FORMS and rng.random() < 0.7:
+            r = rng.random()
+            if p['form'] in W.ASYNC_FORMS and r < 0.6:
                 plan.append({'dt': dtid, 'k': k, 'pid': p['pid'], 'kind': 'sleep', 'delay': rng.choice([0.5, 7, 86400])})
+            elif r < 0.5:
+                # the run ends at an exception nobody expected: what the code wrote
+                # until then is still what must be on record
+                plan.append({'dt': dtid, 'k': k, 'pid': p['pid'], 'kind': 'raise',
+                             'exc': rng.choice(['ValueError', 'KeyError', 'ZeroDivisionError', 'SimError']),
+                             'msg': 'fault ' + p['pid'], 'depth': rng.choice([0, 0, 2])})
             else:
                 plan.append({'dt': dtid, 'k': k, 'pid': p['pid'], 'kind': 'swap_stdout'})
     return {'profile': ID, 'world': world, 'ops': ops, 'plan': plan, 'env': {'listing_seed': rng.randint(0, 99)}}
